@@ -77,6 +77,8 @@ inductive Sp where
   /-- `X | 529` / `X | "abc"`: a Field on the left, a literal value on the right (documented: "a: Integer | Foo | str | 529");
       `len` = length of the literal's source text -/
   | pipeLit (x : Sp) (v : PyVal) (len : Nat)
+  /-- three-element tuples: `tuple[X, Y, Z]` / `typing.Tuple[X, Y, Z]` / `Tuple[X, Y, Z]` / `Tuple(items=[X, Y, Z])` -/
+  | tri585 (x y z : Sp) | triTyping (x y z : Sp) | triSub (x y z : Sp) | triCall (x y z : Sp)
 deriving Repr, Inhabited
 
 /-! ### Python objects that such expressions evaluate to -/
@@ -428,6 +430,19 @@ def ev (tm : TypeMap) : Sp → R Obj
     bindE (ev tm x) fun ox => bindE (ev tm y) fun oy =>
     bindE (tupleItem ox) fun dx => bindE (tupleItem oy) fun dy =>
     bindE (mkItems .tuple [dx, dy]) fun r => .ok (.finst r)
+  | .tri585 x y z =>
+    bindE (ev tm x) fun ox => bindE (ev tm y) fun oy => bindE (ev tm z) fun oz => .ok (.alias false .tuple [ox, oy, oz])
+  | .triTyping x y z =>
+    bindE (ev tm x) fun ox => bindE (ev tm y) fun oy => bindE (ev tm z) fun oz =>
+    .ok (.alias true .tuple [typingArg ox, typingArg oy, typingArg oz])
+  | .triSub x y z =>
+    bindE (ev tm x) fun ox => bindE (ev tm y) fun oy => bindE (ev tm z) fun oz =>
+    bindE (getItem tm ox) fun dx => bindE (getItem tm oy) fun dy => bindE (getItem tm oz) fun dz =>
+    bindE (mkItems .tuple [dx, dy, dz]) fun r => .ok (.finst r)
+  | .triCall x y z =>
+    bindE (ev tm x) fun ox => bindE (ev tm y) fun oy => bindE (ev tm z) fun oz =>
+    bindE (tupleItem ox) fun dx => bindE (tupleItem oy) fun dy => bindE (tupleItem oz) fun dz =>
+    bindE (mkItems .tuple [dx, dy, dz]) fun r => .ok (.finst r)
   /- `_or_fields(first, other)` with `other` a str / int / float / bool value: `AnyOf[first, Enum(values=[other])]`;
      every non-field left operand refuses a plain value (`int | 5`, `None | 5`, `Optional[int] | 5`: TypeError) -/
   | .pipeLit x v _ =>
@@ -484,6 +499,10 @@ def annLen : Sp → Nat
   | .tupSub x y => 9 + annLen x + annLen y
   | .tupCall x y => 17 + annLen x + annLen y
   | .pipeLit x _ n => annLen x + 3 + n
+  | .tri585 x y z => 11 + annLen x + annLen y + annLen z
+  | .triTyping x y z => 18 + annLen x + annLen y + annLen z
+  | .triSub x y z => 11 + annLen x + annLen y + annLen z
+  | .triCall x y z => 19 + annLen x + annLen y + annLen z
 
 /-! ### field and class level -/
 
@@ -560,7 +579,7 @@ def tryDefault (O : Oracles) (d : FieldDecl) (v : PyVal) : R Unit :=
 
 /-- expressions that are a call of a Field class, so that `default=` can be written inside -/
 def kwAllowed : Sp → Bool
-  | .finst _ | .lit _ _ | .bareInst _ | .call _ _ | .mapCall _ _ | .mapInst | .tupCall _ _ => true
+  | .finst _ | .lit _ _ | .bareInst _ | .call _ _ | .mapCall _ _ | .mapInst | .tupCall _ _ | .triCall _ _ _ => true
   | _ => false
 
 /-- extra characters `default=v` adds to the call -/
